@@ -17,7 +17,7 @@ CASE = st.fixed_dictionaries({
     "cfg": configs.config_values(exclude=("wait_to_parse",)),
     "style": configs.STYLE,
     "entry": st.sampled_from(ENTRIES),
-    "source": st.sampled_from([None, "doc-17", 42]),
+    "source": st.sampled_from([None, "doc-17", 42, 0, ""]),
 })
 
 
